@@ -589,6 +589,9 @@ func (m *FeeMonitor) OnEndBlock(h *Hist, b *BlockObs) {
 			m.debit(h, mod, fee)
 			m.credit(am.Addr, fee)
 			h.Run.Count("member-payouts", 1)
+			if !fee.Equal(h.Cfg.FeePerSigner) {
+				h.Run.Count("member-payouts-at-the-fee-charged-before-a-fee-change", 1)
+			}
 		}
 		delete(m.feeOf, id)
 	}
